@@ -459,10 +459,16 @@ impl AnnotationStore {
                     "default-annotationset".into()
                 }
             };
-            let inserted_intid =
-                self.insert(AnnotationDataSet::new(self.config().clone()).with_id(dataset_id))?;
-            self.get_mut(inserted_intid)
-                .expect("must exist after insertion")
+            if <AnnotationStore as StoreFor<AnnotationDataSet>>::has(self, dataset_id.as_str()) {
+                // no dataset was specified and the default one was already created by an earlier call: reuse it
+                self.get_mut(dataset_id.as_str())
+                    .expect("must exist when has() returns true")
+            } else {
+                let inserted_intid = self
+                    .insert(AnnotationDataSet::new(self.config().clone()).with_id(dataset_id))?;
+                self.get_mut(inserted_intid)
+                    .expect("must exist after insertion")
+            }
         };
 
         // Insert the data into the dataset
